@@ -114,6 +114,25 @@ class KwRouteNotApplicable(Exception):
     pass
 
 
+def render_text(doc, style):
+    """wire text of a token list whose leaf texts are already wire-safe; style xml | sgml"""
+    out = []
+    stack = []
+    for t in doc:
+        if t["e"] == "open":
+            out.append("<%s>" % t["tag"])
+            stack.append(t["tag"])
+        elif t["e"] == "close":
+            out.append("</%s>" % stack.pop())
+        else:
+            out.append("<%s>%s" % (t["tag"], uncps(t["text"])))
+            if style == "xml":
+                out.append("</%s>" % t["tag"])
+        if style == "sgml":
+            out.append("\r\n")
+    return "".join(out)
+
+
 def ev_doc(eid, doc, schema, route="etree", label="", expect="", twin=None):
     """run one construction attempt on the real code"""
     from ofxtools.models.base import Aggregate
@@ -123,6 +142,11 @@ def ev_doc(eid, doc, schema, route="etree", label="", expect="", twin=None):
         try:
             if route == "etree":
                 inst = Aggregate.from_etree(to_etree(doc))
+            elif route in ("xml", "sgml"):
+                from ofxtools.Parser import TreeBuilder
+                b = TreeBuilder()
+                b.feed(render_text(doc, route))
+                inst = Aggregate.from_etree(b.close())
             else:
                 inst = build_kw(to_nested(doc), schema)
             out = {"ok": True, "inst": project_inst(inst, schema), "exc": ""}
